@@ -1,5 +1,6 @@
 // e_cif: the C interface (c-interface/cpgm.h, compiled from $VERIF_REPO/c-interface/cpgm.cpp) — C18.
 #include "../common/engine.hpp"
+#include <algorithm>
 #include "../common/keygen.hpp"
 #include "cpgm.h"
 #include <map>
@@ -155,6 +156,7 @@ CaseResult run_static(const RunCtx &ctx, TapeReader &t, unsigned size_hint) {
     // non-trivial: epsilon differs from the compile-time 1 and the data needs >= 2 segments (size_in_bytes grows with the segment count:
     // one segment + sentinel(s) + offsets is the floor)
     res.nontrivial = eps != 1 && absent && bytes > 3 * 16 + 3 * sizeof(size_t);
+    if (mem) res.nontrivial = n <= 3 || meta.starts_lowest || meta.top_reached || meta.chunks > 1;
     if (eps != 1) res.label("epsilon_ne_1");
     return res;
 }
@@ -338,7 +340,9 @@ static CaseResult run(const RunCtx &ctx, const Tape &tape, Tape &canon) {
     TapeReader t(tape);
     unsigned size_hint = (unsigned) t.below(101);
     CaseResult r;
-    switch (t.below(7)) {
+    const uint64_t which = t.below(7);
+    if (ctx.mode == "mem" && t.chance(1, 2)) size_hint = std::min(size_hint, 12u); // C17: boundary sizes (n = 1, 2, 3) every other case
+    switch (which) {
         case 0: r = run_static<int32_t>(ctx, t, size_hint); break;
         case 1: r = run_static<int64_t>(ctx, t, size_hint); break;
         case 2: r = run_static<uint32_t>(ctx, t, size_hint); break;
